@@ -37,6 +37,25 @@ var solvers = []solverSpec{
 	}},
 }
 
+// portfolio: further configurations raced in the retry phase.  Quantified
+// queries that one configuration decides in under a second can run into the
+// time limit with another random seed (and vice versa), so an obligation that
+// the default configurations left undecided is retried with several seeds.
+func z3Variant(bin, label string, opts ...string) solverSpec {
+	return solverSpec{name: label, bin: bin, args: func(t int, f string) []string {
+		return append(append([]string{fmt.Sprintf("-T:%d", t), "-smt2"}, opts...), f)
+	}}
+}
+
+var portfolio = []solverSpec{
+	z3Variant("z3", "z3/seed1", "smt.random_seed=1"),
+	z3Variant("z3-new", "z3-new/seed1", "smt.random_seed=1"),
+	z3Variant("z3", "z3/seed2", "smt.random_seed=2"),
+	z3Variant("z3", "z3/eager100", "smt.qi.eager_threshold=100"),
+	z3Variant("z3-new", "z3-new/seed2", "smt.random_seed=2"),
+	z3Variant("z3", "z3/seed3", "smt.random_seed=3"),
+}
+
 // script assembles the SMT-LIB query for one obligation.
 func (fv *FuncVC) script(o *Obl, eng *Engine, withModel bool) string {
 	c := fv.Ctx
@@ -134,6 +153,7 @@ type Solver struct {
 	timeoutS int
 	firstS   int
 	thorough bool
+	wide     bool // race the seed portfolio as well (retry phase)
 	sem      chan struct{}
 	seq      int
 	mu       sync.Mutex
@@ -190,8 +210,16 @@ func (s *Solver) solve(fv *FuncVC, o *Obl, eng *Engine) *SolveResult {
 			ms            int64
 		}
 		ctx, cancel := context.WithCancel(context.Background())
-		ch := make(chan r, len(solvers))
-		for _, sp := range solvers {
+		race := solvers
+		if !o.Cover {
+			if s.wide {
+				race = append(append([]solverSpec{}, solvers...), portfolio...)
+			} else {
+				race = append(append([]solverSpec{}, solvers...), portfolio[:2]...)
+			}
+		}
+		ch := make(chan r, len(race))
+		for _, sp := range race {
 			sp := sp
 			go func() {
 				s.sem <- struct{}{}
@@ -205,7 +233,7 @@ func (s *Solver) solve(fv *FuncVC, o *Obl, eng *Engine) *SolveResult {
 			}()
 		}
 		var outs []string
-		for range solvers {
+		for range race {
 			x := <-ch
 			outs = append(outs, fmt.Sprintf("[%s] %s %dms", x.name, x.st, x.ms))
 			if x.st == "unsat" || x.st == "sat" {
